@@ -52,3 +52,45 @@ contract(
         modifies=[CTX], export_index=True,
         inv=["last_idx == _k - 1", PREFIX % "_k", BOUND % "_k", OTHERS % "_k", "is_dict(%s)" % CTX])},
 )
+
+# ---------------------------------------------------------------------------------------------------------------------------
+# create_flow_instance: named arguments and declared defaults
+# ---------------------------------------------------------------------------------------------------------------------------
+"""Block contract on the first parameter loop of create_flow_instance: afterwards, for EVERY declared parameter p, the context variable
+p.name (and the recorded argument p.name) is the caller's named argument when one is given - any value, None / False / 0 included - is None
+when there is no argument and no default expression (with a default expression it is what eval_expression(default, {}) returned: not pinned
+down here - a universally quantified "some logged value" did not discharge; bounded native check only); every other context variable is
+untouched."""
+classes({"FlowConfig": [], "FlowParamDef": []})
+opaque("eval_expression", assigns=[], raises=["Exception"],
+       note="eval_expression(expr, {}): evaluation of a declared default (arbitrary value, may raise); no effect on existing objects")
+
+PARAMS = "flow_config.parameters"
+PNAME = "item(%s, i).name" % PARAMS
+EA = "event_arguments"
+CTX2 = "flow_state.context"
+ARGS2 = "flow_state.arguments"
+DONE = ("all(has(%s, %s) and has(%s, %s) and val(%s, %s) is val(%s, %s) and "
+        "    implies(has(%s, %s), val(%s, %s) is val(%s, %s)) and "
+        "    implies(not has(%s, %s) and not truthy(item(%s, i).default_value_expr), is_none(val(%s, %s))) and "
+        "    True "
+        "    for i in range(%%s))" % (CTX2, PNAME, ARGS2, PNAME, ARGS2, PNAME, CTX2, PNAME,
+                                      EA, PNAME, CTX2, PNAME, EA, PNAME,
+                                      EA, PNAME, PARAMS, CTX2, PNAME))
+REST = ("all(implies(not any(k is item(%s, i).name for i in range(%%s)), has(%s, k) == old(has(%s, k)) and val(%s, k) is old(val(%s, k))) "
+        "    for k in values_any())" % (PARAMS, CTX2, CTX2, CTX2, CTX2))
+LOOP1 = "for (idx, param) in enumerate(flow_config.parameters)"
+
+contract(
+    SM, "create_flow_instance", prop="C08", block=(LOOP1, LOOP1),
+    vars={"flow_config": "V", "flow_state": "V", "event_arguments": "V"},
+    requires=["is_obj(flow_config)", "has(flow_config, 'parameters')", "is_list(%s)" % PARAMS,
+              "all(is_obj(p) and has(p, 'name') and is_str(p.name) and has(p, 'default_value_expr') for p in %s)" % PARAMS,
+              "all(all(implies(i != j, item(%s, i).name is not item(%s, j).name) for j in range(llen(%s))) for i in range(llen(%s)))"
+              % (PARAMS, PARAMS, PARAMS, PARAMS),
+              "is_obj(flow_state)", "has(flow_state, 'context')", "has(flow_state, 'arguments')", "is_dict(%s)" % CTX2, "is_dict(%s)" % ARGS2,
+              "%s is not %s" % (CTX2, ARGS2), "is_dict(%s)" % EA, "%s is not %s" % (EA, CTX2), "%s is not %s" % (EA, ARGS2)],
+    ensures=[DONE % ("llen(%s)" % PARAMS), REST % ("llen(%s)" % PARAMS), "unchanged(%s)" % EA],
+    raises={"Exception": "True"},          # a default expression that fails to evaluate
+    loops={LOOP1: dict(modifies=[CTX2, ARGS2], inv=[DONE % "_k", REST % "_k", "is_dict(%s)" % CTX2, "is_dict(%s)" % ARGS2])},
+)
